@@ -185,7 +185,7 @@ func init() {
 		ID:    "C16",
 		Level: "exploration",
 		Rule: "inputs with controlled attribute values (counts 1..9 or absent, lengths 20..200 on the option boundaries, lower-case ids/definitions, sample/k attributes present or absent, taxids over a fixed 12-node taxonomy with an alias and an unknown id); obigrep: every selection option alone, every pair, random larger subsets with repeated options, -v and --save-discarded, checked against a reference interpreter (stdout = selected records in order and unchanged, discarded file = complement), paired inputs over the six --paired-mode values, inputs of 1200-3600 records cut into hundreds of batches (forced read buffer of 150-550 bytes, yields) with 2-32 filter workers; obiannotate: every edit option alone, every pair, random larger subsets, reference applies the edits in the command's fixed order and demands equality of the whole record; dependent map options and out-of-range --cut only have to be deterministic / a function of the record alone (orders, batch sizes, worker counts varied); obidistribute: union of files = input exactly once, file named after the classifier value, same record -> same file under reordering. " +
-			"Added later: reserved names (id, sequence, qualities) as attribute keys, id lists holding a line of 4 KiB-200 kB, -s patterns with upper-case escapes and named groups, class values differing by '/' and '_'. " +
+			"Added later: reserved names (id, sequence, qualities) as attribute keys, id lists holding a line of 4 KiB-200 kB, -s patterns with upper-case escapes and named groups, class values differing by '/' and '_'. Attributes present with the value null, false or 0 (-A keeps them). " +
 			"distinct_nontrivial = distinct option-subset signatures for which both outcomes (kept and dropped) were observed (obigrep) or which were compared on all records (obiannotate, obidistribute)",
 		Assume: []string{"reference semantics of DESIGN.md Appendix A.2 / A.3", "-I/-D patterns and data are lower case (documented vs actual case sensitivity is not at stake)", "expressions only reference attributes every record has"},
 		Subs: []core.Sub{
